@@ -1,9 +1,379 @@
-// C09: not built yet (stub so that main.rs is already wired; replace the body, keep the two signatures).
-use crate::util::Sink;
+// C09: every main event yields a result - panic search on the real code.
+//   tot09 <run> <namehex>:<datahex>* | <view>
+// observation: `ok` (event built; timestamp(), avalanches(), vertex() returned), `err` (build
+// rejected), `panic` (anything unwound).  The model (coq/Event/Event.v through run_c10.ml) predicts
+// the class of try_from_banks and, by C09_build_total, never `panic`; a panic in avalanches() or
+// vertex() therefore also shows as a difference.
+use crate::c10::*;
+use crate::c11::{geometry, sim_event, Geometry};
+use crate::util::*;
+use alpha_g_detector::alpha16::AdcPacket;
+use alpha_g_detector::padwing::{self, Chunk, PwbPacket};
 
-pub fn run(_tier: &str, _seed: u64, _s: &mut Sink) {}
+pub fn observe_total(run: u32, banks: &[Bank]) -> String {
+    match build_real(run, banks) {
+        None => "panic".into(),
+        Some(Err(_)) => "err".into(),
+        Some(Ok(ev)) => {
+            let r = catch(move || {
+                let _ = ev.timestamp();
+                let a = ev.avalanches();
+                let v = ev.vertex();
+                (a.len(), v.is_some())
+            });
+            if r.is_some() { "ok".into() } else { "panic".into() }
+        }
+    }
+}
 
-/// implementation observation for a case line of this module (None: not one of mine)
-pub fn observe_line(_line: &str) -> Option<String> {
-    None
+pub fn observe_line(line: &str) -> Option<String> {
+    let toks: Vec<&str> = line.split(' ').collect();
+    if toks.first() != Some(&"tot09") {
+        return None;
+    }
+    let (run, banks) = parse_raw(&toks[1..])?;
+    Some(observe_total(run, &banks))
+}
+
+fn emit_tot(s: &mut Sink, label: &str, run: u32, banks: &[Bank]) {
+    let line = case_line("tot09", run, banks);
+    let obs = observe_total(run, banks);
+    s.put(&line, &obs, label, obs != "err" || banks.len() > 1);
+}
+
+const EXT: [i16; 8] = [i16::MIN, i16::MAX, i16::MIN + 1, i16::MAX - 1, 0, -1, 1, 2047];
+
+/// overwrite samples of a waveform with extremes, in one of several patterns
+fn extremes(r: &mut Rng, wf: &mut [i16], from: usize) {
+    let style = r.below(7);
+    let n = wf.len();
+    for i in 0..n {
+        let hit = match style {
+            0 => true,
+            1 => i >= from,
+            2 => i >= from && r.chance(1, 4),
+            3 => i == from || i + 1 == n,
+            4 => i % 2 == 0,
+            5 => i < from,
+            _ => r.chance(1, 16),
+        };
+        if hit {
+            wf[i] = match style {
+                0 | 1 => {
+                    if r.chance(1, 2) {
+                        i16::MIN
+                    } else {
+                        i16::MAX
+                    }
+                }
+                4 => {
+                    if (i / 2) % 2 == 0 {
+                        i16::MIN
+                    } else {
+                        i16::MAX
+                    }
+                }
+                _ => r.pick(&EXT),
+            };
+        }
+    }
+    if style == 0 && r.chance(1, 2) {
+        let v = r.pick(&[i16::MIN, i16::MAX]);
+        wf.iter_mut().for_each(|x| *x = v);
+    }
+}
+
+/// decode a wire bank, change it, encode it again with a valid baseline / footer
+fn reencode_wire(w: &World, r: &mut Rng, b: &Bank, delay: usize) -> Option<Bank> {
+    let p = AdcPacket::try_from(&b.data[..]).ok()?;
+    let board = p.board_id()?;
+    let mac = board.mac_address();
+    let chan_byte = b.data[5];
+    let mut wf = p.waveform().to_vec();
+    let _ = w;
+    let data = match r.below(14) {
+        0..=8 => {
+            extremes(r, &mut wf, delay);
+            adc_long(mac, chan_byte, &wf, None, None)
+        }
+        9 => {
+            // requested_samples at an extreme (the packet then usually no longer decodes)
+            let req = r.pick(&[0u16, 1, 2, 511, 65535, (wf.len() + 1) as u16, (wf.len() + 3) as u16]);
+            adc_long(mac, chan_byte, &wf, None, Some(req))
+        }
+        10 => {
+            // truncated to the shortest legal waveforms / around the delay
+            let n = r.pick(&[64usize, 65, delay.max(64) - 1, delay.max(64), delay.max(64) + 1]).min(wf.len());
+            wf.truncate(n.max(64));
+            extremes(r, &mut wf, delay);
+            adc_long(mac, chan_byte, &wf, None, None)
+        }
+        11 => {
+            // data suppression on, keep_last at its bounds
+            let n = wf.len();
+            let max_kl = ((n + 1) / 2 + 1) as u16;
+            let kl = r.pick(&[34u16, max_kl, max_kl.saturating_sub(1), 0, 33, 0xFFF]);
+            { let rq = r.pick(&[(n + 2) as u16, 65535, 0]); adc_long(mac, chan_byte, &wf, Some(kl), Some(rq)) }
+        }
+        12 => { let rq = r.pick(&[0u16, 1, 511, 65535]); let bl = r.pick(&EXT); adc_short(chan_byte, rq, bl) }
+        _ => {
+            // longest waveform the 16-bit requested_samples allows for the bank (kept moderate)
+            let mut big = vec![0i16; r.pick(&[509usize, 1000, 4000])];
+            extremes(r, &mut big, delay);
+            adc_long(mac, chan_byte, &big, None, None)
+        }
+    };
+    Some(Bank { name: b.name.clone(), data })
+}
+
+/// decode the PWB packet made of the banks at `idx`, change it, encode it again (valid CRCs)
+fn reencode_group(w: &World, r: &mut Rng, banks: &[Bank], idx: &[usize], delay: usize) -> Option<Vec<Bank>> {
+    let chunks: Vec<Chunk> = idx.iter().map(|&i| Chunk::try_from(&banks[i].data[..]).ok()).collect::<Option<_>>()?;
+    let dev = chunks[0].board_id().device_id();
+    let hdr_chip = match chunks[0].after_id() {
+        padwing::AfterId::A => 0u8,
+        padwing::AfterId::B => 1,
+        padwing::AfterId::C => 2,
+        padwing::AfterId::D => 3,
+    };
+    let p = PwbPacket::try_from(chunks).ok()?;
+    let mac = p.board_id().mac_address();
+    let mut nsamp = p.requested_samples();
+    // readout indices of the channels sent
+    let mut chans: Vec<(u16, Vec<i16>)> = Vec::new();
+    for ro in 1..=79u16 {
+        let ch = padwing::ChannelId::try_from(ro).ok()?;
+        if let Some(wf) = p.waveform_at(ch) {
+            chans.push((ro, wf.to_vec()));
+        }
+    }
+    let _ = w;
+    match r.below(8) {
+        0..=3 => {
+            for c in chans.iter_mut() {
+                if r.chance(2, 3) {
+                    extremes(r, &mut c.1, delay);
+                }
+            }
+        }
+        4 => {
+            // all 79 channels
+            nsamp = r.pick(&[0usize, 1, delay + 1, delay + 20, 511]);
+            chans = (1..=79u16)
+                .map(|ro| {
+                    let mut v = vec![0i16; nsamp];
+                    extremes(r, &mut v, delay);
+                    (ro, v)
+                })
+                .collect();
+        }
+        5 => {
+            // requested_samples 0 / 1 / 511 / around the delay
+            nsamp = r.pick(&[0usize, 1, delay.saturating_sub(1), delay, delay + 1, 511]);
+            for c in chans.iter_mut() {
+                c.1 = vec![0i16; nsamp];
+                extremes(r, &mut c.1, delay);
+            }
+        }
+        6 => {
+            // only reset / FPN channels, or a single channel
+            chans = [1u16, 2, 3, 16, 29, 54, 67]
+                .iter()
+                .map(|&ro| {
+                    let mut v = vec![0i16; nsamp];
+                    extremes(r, &mut v, delay);
+                    (ro, v)
+                })
+                .collect();
+        }
+        _ => {
+            chans.truncate(1);
+            for c in chans.iter_mut() {
+                extremes(r, &mut c.1, 0);
+            }
+        }
+    }
+    let mut payload = pwb_payload(mac, b'A' + hdr_chip, nsamp as u16, &chans);
+    if r.chance(1, 6) {
+        // header fields at their extremes: trigger delay, timestamp, last SCA cell, counters
+        payload[10] = 0xFF;
+        payload[11] = 0xFF;
+        for k in 12..18 {
+            payload[k] = 0xFF;
+        }
+        payload[20] = 0xFF;
+        payload[21] = 0x01;
+        for k in 44..52 {
+            payload[k] = 0xFF;
+        }
+    }
+    let n = r.pick(&[1usize, 2, 3, 7]);
+    let name = banks[idx[0]].name.clone();
+    Some(split_chunks(dev, hdr_chip, &payload, n).into_iter().map(|d| Bank { name: name.clone(), data: d }).collect())
+}
+
+/// re-encode some packets of an event at extremes
+fn extreme_event(w: &World, r: &mut Rng, ev: &Ev) -> Ev {
+    let (wd, pd) = if ev.run == u32::MAX { (100usize, 100usize) } else { (129, 115) };
+    let mut banks = Vec::new();
+    let mut kinds = Vec::new();
+    let mut done_groups: Vec<(usize, u8)> = Vec::new();
+    let heavy = r.chance(1, 3);
+    for i in 0..ev.banks.len() {
+        match &ev.kinds[i] {
+            Kind::Wire { .. } => {
+                let change = if heavy { r.chance(3, 4) } else { r.chance(1, 6) };
+                let nb = if change { reencode_wire(w, r, &ev.banks[i], wd) } else { None };
+                banks.push(nb.unwrap_or_else(|| ev.banks[i].clone()));
+                kinds.push(ev.kinds[i].clone());
+            }
+            Kind::Pad { board, chip } => {
+                let key = (*board, *chip);
+                if done_groups.contains(&key) {
+                    continue;
+                }
+                done_groups.push(key);
+                let idx: Vec<usize> = (0..ev.banks.len())
+                    .filter(|&j| matches!(&ev.kinds[j], Kind::Pad { board: b2, chip: c2 } if (*b2, *c2) == key))
+                    .collect();
+                let change = if heavy { r.chance(3, 4) } else { r.chance(1, 4) };
+                let nb = if change { reencode_group(w, r, &ev.banks, &idx, pd) } else { None };
+                match nb {
+                    Some(v) => {
+                        for b in v {
+                            banks.push(b);
+                            kinds.push(ev.kinds[i].clone());
+                        }
+                    }
+                    None => {
+                        for j in idx {
+                            banks.push(ev.banks[j].clone());
+                            kinds.push(ev.kinds[j].clone());
+                        }
+                    }
+                }
+            }
+            Kind::Trg => {
+                let b = if r.chance(1, 3) {
+                    let m = u32::MAX;
+                    let t = match r.below(4) {
+                        0 => trg(m, m, m, m, m),
+                        1 => trg(0, 0, 0, 0, 0),
+                        2 => trg(m, 0, m, m / 2, 1),
+                        _ => trg(1, 0x0FFF_FFFF, 0x1FFF_FFFF, 0x1000_0000, 0x0FFF_FFFF),
+                    };
+                    Bank { name: "ATAT".into(), data: t }
+                } else {
+                    ev.banks[i].clone()
+                };
+                banks.push(b);
+                kinds.push(Kind::Trg);
+            }
+            Kind::Other => {
+                banks.push(ev.banks[i].clone());
+                kinds.push(Kind::Other);
+            }
+        }
+    }
+    Ev { run: ev.run, banks, kinds }
+}
+
+pub fn run(tier: &str, seed: u64, s: &mut Sink) {
+    let w = world();
+    let mut r = Rng::new(seed ^ 0xC09);
+    let thorough = tier == "thorough";
+    let g_sim: Geometry = geometry(&w, u32::MAX);
+    let g_real: Geometry = geometry(&w, 11192);
+    // 1. realistic simulated-like events, as they are and re-encoded at extremes
+    let n_sim = if thorough { 300 } else { 24 };
+    for i in 0..n_sim {
+        let (run, g) = if i % 3 == 2 { (11192u32, &g_real) } else { (u32::MAX, &g_sim) };
+        let nt = if i % 2 == 0 { 11 + (i % 4) } else { 1 + (i % 4) };
+        let noise = r.pick(&[0i64, 3, 30]);
+        let ev = sim_event(&w, g, &mut r, run, nt, noise);
+        emit_tot(s, "simulated-tracks", ev.run, &ev.banks);
+        for _ in 0..5 {
+            let x = extreme_event(&w, &mut r, &ev);
+            emit_tot(s, "simulated-tracks-reencoded-at-extremes", x.run, &x.banks);
+        }
+        // duplicated / missing / foreign banks on the simulated event
+        for _ in 0..2 {
+            let mut x = ev.clone();
+            let which = r.below(N_PERTURB);
+            if let Some(label) = perturb(&w, &mut r, &mut x, which) {
+                emit_tot(s, &format!("simulated-tracks+{}", label), x.run, &x.banks);
+            }
+        }
+    }
+    // 2. small events re-encoded at extremes (cheap: many)
+    let n_small = if thorough { 12000 } else { 1500 };
+    for i in 0..n_small {
+        let ev = if i % 5 == 4 {
+            let run = pick_run(&mut r);
+            base_event(&w, &mut r, run, false)
+        } else {
+            clean_base(&w, &mut r, None)
+        };
+        let x = extreme_event(&w, &mut r, &ev);
+        emit_tot(s, "event-reencoded-at-extremes", x.run, &x.banks);
+    }
+    // 3. the cases in which a single check decides, and the sweeps with all 79 channels
+    {
+        let mut tmp = Vec::new();
+        // reuse the C10 generators through a scratch sink: take their bank lists from the case lines
+        let dir = std::env::temp_dir().join(format!("c09-scratch-{}-{}", std::process::id(), seed));
+        std::fs::create_dir_all(&dir).unwrap();
+        {
+            let mut scratch = Sink::new(dir.to_str().unwrap());
+            decisive(&w, &mut r, &mut scratch, if thorough { 12 } else { 3 });
+            scratch.finish();
+        }
+        if let Ok(text) = std::fs::read_to_string(dir.join("cases.txt")) {
+            for line in text.lines() {
+                let toks: Vec<&str> = line.split(' ').collect();
+                if let Some((run, banks)) = parse_raw(&toks[1..]) {
+                    tmp.push((run, banks));
+                }
+            }
+        }
+        let _ = std::fs::remove_dir_all(&dir);
+        for (run, banks) in tmp {
+            emit_tot(s, "single-check-decides", run, &banks);
+        }
+    }
+    for &run in &[u32::MAX, 11192] {
+        for b in 0..w.pwb.len() {
+            if !thorough && !r.chance(1, 10) {
+                continue;
+            }
+            let chip = r.below(4) as u8;
+            let nsamp = r.pick(&[0u16, 1, 101, 116, 511]);
+            let mut banks = board_sweep_pads(&w, &mut r, b, chip, nsamp);
+            banks.pop(); // one TRG bank only (the wire sweep brings its own)
+            // the sweep's samples cover the whole i16 range
+            let wb = r.below(8) as usize;
+            banks.extend(board_sweep_wires(&w, &mut r, run, wb));
+            emit_tot(s, "all-79-channels", run, &banks);
+        }
+    }
+    // 4. random names and bytes
+    let n_rand = if thorough { 20000 } else { 2000 };
+    for _ in 0..n_rand {
+        let k = r.below(5) as usize;
+        let banks: Vec<Bank> = (0..k)
+            .map(|_| {
+                let name: String = match r.below(6) {
+                    0 => wire_name(&w.a16[r.below(8) as usize].name, r.below(32) as u8),
+                    1 => format!("PC{}", w.pwb[r.below(w.pwb.len() as u64) as usize].name),
+                    2 => "ATAT".to_string(),
+                    3 => (0..r.below(7)).map(|_| (r.range(32, 126) as u8) as char).collect(),
+                    4 => (0..r.below(4)).map(|_| char::from_u32(r.pick(&[0xe9u32, 0x4e2d, 0x1F600, 0x41, 0x30])).unwrap()).collect(),
+                    _ => other_bank(&w, &mut r).name,
+                };
+                let n = r.pick(&[0usize, 1, 15, 16, 17, 27, 28, 35, 36, 79, 80, 81, 164, 700]);
+                Bank { name, data: r.bytes(n) }
+            })
+            .collect();
+        emit_tot(s, "random-names-and-bytes", pick_run(&mut r), &banks);
+    }
 }
